@@ -264,6 +264,36 @@ def section_sort(serif, out):
         raise LookupError("; ".join(errs))
 
 
+def section_display(serif, out):
+    """display.py: the module-level preview limits and the literal `set_repr_rows(None)` resets to (AST only)"""
+    vals = {"reprRowsDefault": 0, "maxHeadCols": 0, "reprRowsReset": 0}
+    try:
+        tree = ast.parse(open(os.path.join(SRC, "serif", "display.py")).read())
+        for node in tree.body:
+            if isinstance(node, ast.Assign) and len(node.targets) == 1 and isinstance(node.targets[0], ast.Name):
+                nm = node.targets[0].id
+                if isinstance(node.value, ast.Constant) and type(node.value.value) is int and node.value.value >= 0:
+                    if nm == "_REPR_ROWS_DEFAULT":
+                        vals["reprRowsDefault"] = node.value.value
+                    elif nm == "MAX_HEAD_COLS":
+                        vals["maxHeadCols"] = node.value.value
+            if isinstance(node, ast.FunctionDef) and node.name == "set_repr_rows":
+                for sub in ast.walk(node):
+                    if (isinstance(sub, ast.Assign) and isinstance(sub.targets[0], ast.Name)
+                            and sub.targets[0].id == "_REPR_ROWS_DEFAULT" and isinstance(sub.value, ast.IfExp)
+                            and isinstance(sub.value.orelse, ast.Constant) and type(sub.value.orelse.value) is int):
+                        vals["reprRowsReset"] = sub.value.orelse.value
+    finally:
+        # neutral values (0) are emitted when a pattern is not found, so that the driver still builds
+        out.append("/-- `display._REPR_ROWS_DEFAULT` as assigned at module level -/")
+        out.append(f"def reprRowsDefault : Nat := {vals['reprRowsDefault']}")
+        out.append("/-- the value `set_repr_rows(None)` resets the global to -/")
+        out.append(f"def reprRowsReset : Nat := {vals['reprRowsReset']}")
+        out.append("/-- `display.MAX_HEAD_COLS` -/")
+        out.append(f"def maxHeadCols : Nat := {vals['maxHeadCols']}")
+        out.append("")
+
+
 
 
 def generate():
